@@ -11,8 +11,13 @@ EXTENDS TagsMC, Json
 VARIABLE hist
 svars == <<vars, hist>>
 SInit == Init /\ hist = <<>>
+\* the back-end state after the step (x index entries, f manifest files; rt, rm the registry's
+\* tag map and pool manifests) and whether the goroutine's operation is complete: the driver
+\* logs the same projection of the real back end after every operation of a sequential
+\* scenario and the runner compares them step by step (a difference is drift of (D))
+Snap(p) == [idle |-> pc'[p] = "idle", x |-> index', f |-> files', rt |-> rtags', rm |-> rmans' \cap Mans]
 SNext == \E p \in Procs :
-           \/ Step(p) /\ hist' = Append(hist, [p |-> p, a |-> pc[p], o |-> cur[p]])
-           \/ \E o \in Ops : Start(p, o) /\ hist' = Append(hist, [p |-> p, a |-> "START", o |-> o])
+           \/ Step(p) /\ hist' = Append(hist, [p |-> p, a |-> pc[p], o |-> cur[p], s |-> Snap(p)])
+           \/ \E o \in Ops : Start(p, o) /\ hist' = Append(hist, [p |-> p, a |-> "START", o |-> o, s |-> Snap(p)])
 Emit == Done => PrintT(<<"SCN", ToJson([conf |-> conf, steps |-> hist])>>)
 =============================================================================
